@@ -7,6 +7,7 @@ import (
 	"sort"
 	"strconv"
 	"strings"
+	"unicode/utf8"
 
 	apierrors "k8s.io/apimachinery/pkg/api/errors"
 	metav1 "k8s.io/apimachinery/pkg/apis/meta/v1"
@@ -351,7 +352,7 @@ func (e *env) apply(o Op) implStep {
 }
 
 // modelReply renders the model's answer in the same vocabulary as implStep.reply
-func modelReply(r map[string]interface{}) string {
+func modelReply(r map[string]interface{}, op string) string {
 	num := func(k string) string {
 		if f, ok := r[k].(float64); ok {
 			return strconv.FormatInt(int64(f), 10)
@@ -362,6 +363,9 @@ func modelReply(r map[string]interface{}) string {
 	case "refused":
 		return fmt.Sprintf("refused:%s:%s", num("shard"), r["leader"])
 	case "skipped", "handled":
+		if op == "deleteCond" {
+			return "called"
+		}
 		return "nil"
 	case "skippedNoInstance", "deleted":
 		return "called"
@@ -482,7 +486,7 @@ func runHistory(c *rig.Ctx, cs Case, m mode) bool {
 	for i, o := range cs.Ops {
 		ms := mod.Steps[i]
 		is := steps[i]
-		mr := modelReply(ms.Reply)
+		mr := modelReply(ms.Reply, o.Op)
 		if m.count {
 			b := "op/" + o.Op + "/" + strings.SplitN(strings.SplitN(is.reply, ":", 2)[0], "+", 2)[0]
 			if entryOp(o) && ms.Spec != nil {
@@ -604,12 +608,11 @@ func genHistory(c *rig.Ctx, i int) Case {
 	for len(ups) < 5 {
 		var u string
 		if c.Rng.Intn(2) == 0 {
-			u = rig.Pick(c.Rng, fixedNames)
-		} else {
-			u = randName(c)
-			if len(u) > 24 {
-				u = u[:24]
+			for u = "\xff"; !utf8.ValidString(u); {
+				u = rig.Pick(c.Rng, fixedNames)
 			}
+		} else {
+			u = randUTF8Name(c)
 		}
 		dup := false
 		for _, x := range ups {
@@ -679,6 +682,31 @@ func genHistory(c *rig.Ctx, i int) Case {
 		cs.Ops = append(cs.Ops, o)
 	}
 	return cs
+}
+
+// randUTF8Name: the limiter's metrics use the upstream as a label value, and Prometheus panics on label
+// values that are not valid UTF-8 (names reach the limiter through JSON, which cannot carry invalid UTF-8):
+// histories use valid UTF-8 names - any runes, control characters included.
+func randUTF8Name(c *rig.Ctx) string {
+	n := c.Rng.Intn(13)
+	var rs []rune
+	for i := 0; i < n; i++ {
+		switch c.Rng.Intn(4) {
+		case 0:
+			rs = append(rs, rune(c.Rng.Intn(0x80)))
+		case 1:
+			rs = append(rs, rune('a'+c.Rng.Intn(3)))
+		case 2:
+			rs = append(rs, rune(0x80+c.Rng.Intn(0x700)))
+		default:
+			r := rune(c.Rng.Intn(0x10000))
+			if r >= 0xd800 && r < 0xe000 {
+				r = '.'
+			}
+			rs = append(rs, r)
+		}
+	}
+	return string(rs)
 }
 
 func implShardInt(name string, n int) int {
